@@ -128,3 +128,62 @@ def predsib_rule(ctx, c, rid):
                 ctx.violation(rid, "%s|merge-only-predicate:%s:%s" % (key, p, tr.split("::")[-1]),
                               "merge special-cases component values by %s but the lattice's %s never consults %s: values that merge collapses are still told apart by the comparison "
                               "(merge(a, a) may differ from a; order disagrees with merge)" % (p, tr.split("::")[-1], p), "%s:%s" % (m["file"], m["line"]))
+
+
+def ord_direction_rule(ctx, c, rid):
+    """Max / Min: the stored value is replaced by the other one exactly on the strict-comparison edge in the right direction, and `true` is
+    returned exactly there (decides the `<` vs `<=` and direction questions for the two order lattices)"""
+    import proto
+    want = {"lattices::ord::Max": "self<other", "lattices::ord::Min": "other<self"}
+    for imp in lattice_impls(c, {"lattices::Merge"}):
+        adt = imp.get("self_adt")
+        if adt not in want:
+            continue
+        b = c.impl_method(imp, "merge")
+        if b is None:
+            continue
+        key = impl_key(c, imp)
+        org = proto.Origins(b)
+        rel = None
+        site = None
+        for bb, t in b.calls():
+            f = t.get("f")
+            if not f or f["name"] not in ("lt", "gt", "le", "ge") or len(t["a"]) != 2 or not isinstance(t.get("dst"), int):
+                continue
+            sides = []
+            for a in t["a"]:
+                p = op_place(a)
+                r0, _path = org.origin_place(p) if p is not None else (None, ())
+                sides.append("self" if r0 == 1 else "other" if r0 == 2 else "?")
+            # the edge on which self is assigned
+            for sb in range(b.n):
+                ts = b.term(sb)
+                if ts["k"] != "switch" or op_place(ts["d"]) != t["dst"]:
+                    continue
+                zero = [tgt for v, tgt in ts["ts"] if v == 0]
+                assigns = [ab for ab, i2, lhs, rv in b.assignments() if not isinstance(lhs, int) and pl_local(lhs) == 1 and "*" in pl_projs(lhs) and not b.is_cleanup(ab)]
+                on_true = any(b.dominates(ts["o"], ab) for ab in assigns)
+                on_false = bool(zero) and any(b.dominates(zero[0], ab) for ab in assigns)
+                op = f["name"]
+                if on_false and not on_true:
+                    op = {"lt": "ge", "gt": "le", "le": "gt", "ge": "lt"}[op]
+                elif not on_true:
+                    continue
+                l, r = sides
+                if op in ("gt", "ge"):
+                    l, r = r, l
+                    op = {"gt": "lt", "ge": "le"}[op]
+                rel = "%s%s%s" % (l, "<" if op == "lt" else "<=", r)
+                site = bb
+                true_ret = [rb for rb, i3, lhs3, rv3 in b.assignments() if lhs3 == 0 and rv3["k"] == "use" and rv3["ops"][0].get("c") == "true" and not b.is_cleanup(rb)]
+                tgt_assign = ts["o"] if on_true else zero[0]
+                tgt_keep = zero[0] if on_true and zero else ts["o"]
+                if not any(b.dominates(tgt_assign, rb) for rb in true_ret) or any(b.dominates(tgt_keep, rb) for rb in true_ret):
+                    ctx.violation(rid, key + "|flag-edge", "`true` (changed) is not returned exactly on the edge that replaces the stored value", b.loc(bb))
+        ctx.inst(rid, key, sample={"replaces_when": rel, "expected": want[adt]})
+        if rel is None:
+            ctx.anchor_missing(rid, "comparison deciding the replacement in " + key)
+        elif rel != want[adt]:
+            ctx.violation(rid, key + "|direction", "%s replaces its value when `%s` but the lattice requires `%s` (strict): %s" % (
+                adt.split("::")[-1], rel, want[adt], "equal values would be reported as a change" if "<=" in rel else "the smaller/greater element wins, merge is not the join"),
+                b.loc(site) if site is not None else b.loc())
